@@ -42,10 +42,10 @@ func init() {
 
 		// refused; kept because the reasons document what is tied to the code by the
 		// correspondence harness only:
-		// result type plugin.Plugin (interface). With a row {Type: "Plugin", Opaque, Nilable} the
-		// translator emits `return NewCLIPlugin(..)` without the *CLIPlugin -> Plugin conversion
-		// (ill-typed C16_Gen.v, reported to the translator's owner): C16_gen_Get_composition
-		// states the composition of the translated pieces instead
+		// result type plugin.Plugin (interface): `return NewCLIPlugin(..)` converts a concrete
+		// *CLIPlugin into an interface value (typed-nil semantics), which is outside the subset
+		// (refused by the translator also with a {Type: "Plugin", Opaque, Nilable} row):
+		// C16_gen_Get_composition states the composition of the translated pieces instead
 		{Pkg: "path", Func: "Join", Oracle: true},
 		{Pkg: ".../plugin", Func: "(*CLIManager).Get"},
 		// fs.WalkDir / filepath.WalkDir with the SkipDir protocol (not the Callback contract)
